@@ -10,10 +10,18 @@ S3DBCHECK_RECORD_ANCHORS=$T /verif/bin/s3dbcheck -repo /repo -property all -no-e
  echo '// resolves: if exactly one function of the same package has the recorded signature, the anchor'
  echo '// moved there (a rename), and the rules go on; otherwise the anchor is lost (exit 2).'
  echo 'var AnchorSignatures = map[string]string{'
- sort -u $T | python3 -c "import sys,json
+ grep -v '^field:' $T | sort -u | python3 -c "import sys,json
+for l in sys.stdin:
+    k,v=l.rstrip('\n').split('\t'); print('\t%s: %s,'%(json.dumps(k),json.dumps(v)))"
+ echo '}'
+ echo
+ echo '// AnchorFields: position and type of every struct field the rules look up by name, recorded on'
+ echo '// the reference tree. Fallback only, when the name no longer resolves (an.LookupField).'
+ echo 'var AnchorFields = map[string]string{'
+ grep '^field:' $T | sed 's/^field://' | sort -u | python3 -c "import sys,json
 for l in sys.stdin:
     k,v=l.rstrip('\n').split('\t'); print('\t%s: %s,'%(json.dumps(k),json.dumps(v)))"
  echo '}'
 } > /verif/checker/core/anchors.go
 rm -f $T; rm -rf /tmp/ev-anch
-gofmt -l /verif/checker/core/ ; grep -c '":' /verif/checker/core/anchors.go
+gofmt -w /verif/checker/core/anchors.go; grep -c '":' /verif/checker/core/anchors.go
